@@ -299,6 +299,59 @@ func slack[T signal.SignalTypes](n, t int) []T {
 	return s
 }
 
+// CallerDamage holds the first observation that a striped call changed something of the caller's that
+// is not its to change: the slice headers in the outer slice it was given, or the elements hidden
+// behind the length of an inner slice (a library that appends to the caller's slices does both).
+var CallerDamage atomic.Value
+
+// TakeCallerDamage returns and clears the note.
+func TakeCallerDamage() string {
+	if n, ok := CallerDamage.Load().(string); ok && n != "" {
+		CallerDamage.Store("")
+		return n
+	}
+	return ""
+}
+
+// checkCaller compares the outer slice after a striped call with the inner slices that went in.
+func checkCaller[S signal.SignalTypes](fn string, after [][]S, before []Sl) {
+	for i, s := range before {
+		w := s.(slW[S])
+		if i >= len(after) {
+			break
+		}
+		if len(after[i]) != len(w.s) || (len(w.s) > 0 && &after[i][0] != &w.s[0]) || (after[i] == nil) != (w.s == nil) {
+			CallerDamage.CompareAndSwap(nil, "")
+			if cur, _ := CallerDamage.Load().(string); cur == "" {
+				CallerDamage.Store(fmt.Sprintf("%s changed element %d of the outer slice it was given: a slice of length %d, it was of length %d", fn, i, len(after[i]), len(w.s)))
+			}
+			return
+		}
+		if n := w.hiddenChanged(); n >= 0 {
+			if cur, _ := CallerDamage.Load().(string); cur == "" {
+				CallerDamage.Store(fmt.Sprintf("%s wrote behind the length of the caller's slice %d (element %d of its backing array, beyond len %d)", fn, i, n, len(w.s)))
+			}
+			return
+		}
+	}
+}
+
+// hiddenChanged returns the index of the first element behind the slice's length that no longer holds
+// the garbage it was made with (-1: none).
+func (w slW[T]) hiddenChanged() int {
+	if w.s == nil {
+		return -1
+	}
+	g := fromVal[T](Garbage(w.t))
+	h := w.s[:cap(w.s)]
+	for i := len(w.s); i < len(h); i++ {
+		if h[i] != g {
+			return i
+		}
+	}
+	return -1
+}
+
 func unSl[S signal.SignalTypes](src []Sl, outerNil bool) [][]S {
 	if outerNil {
 		return nil
@@ -320,10 +373,14 @@ func regIO[S, D signal.SignalTypes](s, d int) {
 	p.write = func(src Sl, dst Buf) int { return signal.Write(src.(slW[S]).s, dst.(bufW[D]).b) }
 	p.read = func(src Buf, dst Sl) int { return signal.Read(src.(bufW[S]).b, dst.(slW[D]).s) }
 	p.writeStriped = func(src []Sl, outerNil bool, dst Buf) int {
-		return signal.WriteStriped(unSl[S](src, outerNil), dst.(bufW[D]).b)
+		outer := unSl[S](src, outerNil)
+		defer checkCaller("WriteStriped", outer, src)
+		return signal.WriteStriped(outer, dst.(bufW[D]).b)
 	}
 	p.readStriped = func(src Buf, dst []Sl, outerNil bool) int {
-		return signal.ReadStriped(src.(bufW[S]).b, unSl[D](dst, outerNil))
+		outer := unSl[D](dst, outerNil)
+		defer checkCaller("ReadStriped", outer, dst)
+		return signal.ReadStriped(src.(bufW[S]).b, outer)
 	}
 	p.writeStripedP = func(src Striped, dst Buf) int { return signal.WriteStriped(src.(stripedW[S]).s, dst.(bufW[D]).b) }
 	p.readStripedP = func(src Buf, dst Striped) int { return signal.ReadStriped(src.(bufW[S]).b, dst.(stripedW[D]).s) }
